@@ -4,5 +4,5 @@ set -e
 cd "$(dirname "$0")/.."
 mkdir -p .cache/tmp
 export CARGO_NET_OFFLINE=true CARGO_TARGET_DIR="$PWD/.cache/target-h"
-(cd harness && cargo build --release --offline -p vh)
+(cd harness && cargo build --release --offline -p vh -p vloom)
 echo setup ok
